@@ -52,8 +52,16 @@ CLOSURE_DEPTH = 14   # more steps than any of the programs has removable parts: 
 CLOSURE_QUICK = (0, 3, 4, 6, 7, 8, 10, 14, 20, 22, 25, 29, 32, 38)  # programs whose closure has fewer than 70 states
 
 
+UNEVEN_TARGETS = [  # containers whose elements have an indentation of their own, at two depths
+    "v = [\n    a,\n    b,\n]\nw = f(\n        c,\n        d,\n    )",
+    "def g():\n    t = {\n        k,\n        r,\n    }\n    return (\n        t,\n    )",
+    "class C:\n    def m(self):\n        x = [a, b]\n        y = [\n          a]\n        del (\n            p,\n            q)",
+]
+UNEVEN = dict(nk=1, nks=10, seq_from=7, forms=('src', 'fst'), opts=({}, {'trivia': False}), kinds=('put_slice',))
+
+
 def shards(tier):
-    out = []
+    out = [{'uneven': i, 'prog': -1, 'part': [0, 1], 'depth': 1} for i in range(len(UNEVEN_TARGETS))]
     # long histories: the closure of each program under the shrinking alphabet (delete anything, replace anything by the simplest
     # code of its category); every operation makes the program smaller or leaves it as it is, so the reachable state space is finite
     for i in (CLOSURE_QUICK if tier == 'quick' else range(len(PROGRAMS))):
@@ -112,8 +120,8 @@ def describe_request(src, op):
 
 def run_shard(desc, tier, res):
     import fst
-    src0 = PROGRAMS[desc['prog']]
-    alphas = ALPHA[tier]
+    src0 = PROGRAMS[desc['prog']] if 'uneven' not in desc else UNEVEN_TARGETS[desc['uneven']]
+    alphas = ALPHA[tier] if 'uneven' not in desc else [UNEVEN]
     if desc['depth'] == 3:
         alphas = [ALPHA['quick'][1], ALPHA['quick'][1], ALPHA['thorough'][2]]
     if desc.get('closure'):
@@ -137,7 +145,7 @@ def run_shard(desc, tier, res):
 
     # histories of length >= 2 run with every cacheable query asked before each edit (a stale cached extent then shows up as
     # a wrong splice); depth-1 shards run without any query
-    X.bfs(fst, src0, desc['depth'], alphas, tuple(desc['part']), res, on_state, cid_prefix=f"C01/p{desc['prog']}/",
+    X.bfs(fst, src0, desc['depth'], alphas, tuple(desc['part']), res, on_state, cid_prefix=f"C01/p{desc['prog']}/" if 'uneven' not in desc else f"C01/uneven{desc['uneven']}/",
           warm=desc['depth'] >= 2)
     if desc.get('closure'):
         res.extra['closures_explored'] = 1
